@@ -36,6 +36,8 @@ pub const OAUTH2_OIDC_MAX_AGE_CLAMP: i64 = 3600;
 
 // ---- url::Url / url::Host: opaque, compared as values; scheme and host are uninterpreted observers ----
 #[verifier::external_body] pub struct Url { _p: u8 }
+impl vstd::std_specs::cmp::PartialEqSpecImpl for Url { open spec fn obeys_eq_spec() -> bool { true } open spec fn eq_spec(&self, other: &Url) -> bool { *self == *other } }
+impl PartialEq for Url { #[verifier::external_body] fn eq(&self, other: &Url) -> (r: bool) { unimplemented!() } }
 #[verifier::external_body] pub struct Ipv4Addr { _p: u8 }
 #[verifier::external_body] pub struct Ipv6Addr { _p: u8 }
 pub enum Host<S> { Domain(S), Ipv4(Ipv4Addr), Ipv6(Ipv6Addr) }
@@ -96,7 +98,7 @@ impl Identity {
     #[verifier::external_body] pub fn get_oauth2_consent_scopes(&self, rs: Uuid) -> (r: Option<&BTreeSet<String>>) { unimplemented!() }
 }
 
-pub enum OperationError { SerdeJsonError, CryptographyError, Backend, InvalidState, InvalidSessionState, InvalidRequestState }
+pub enum OperationError { SerdeJsonError, CryptographyError, Backend, InvalidState, InvalidSessionState, InvalidRequestState, NotAuthenticated }
 // opaque field types of the extracted structs
 pub mod serde_json { pub mod value { pub struct Value { pub o: u8 } } }
 pub struct Origin { pub o: u8 }
@@ -104,29 +106,58 @@ pub struct ClaimValue { pub o: u8 }
 pub struct SignatureAlgo { pub o: u8 }
 pub struct Arc<T> { pub v: T }
 impl<T> core::ops::Deref for Arc<T> { type Target = T; fn deref(&self) -> (r: &T) ensures *r == self.v { &self.v } }
-// ---- token sealing (compact_jwt / key objects): the sealed string is an uninterpreted function of the payload, so that the payload
-// handed to the client can be named in the contract ----
-pub struct KeyObject { pub o: u8 }
-#[verifier::external_body] #[verifier::reject_recursive_types(T)] pub struct Jwe<T> { p: core::marker::PhantomData<T> }
-#[verifier::external_body] #[verifier::reject_recursive_types(T)] pub struct JweBuilderS<T> { p: core::marker::PhantomData<T> }
-#[verifier::external_body] #[verifier::reject_recursive_types(T)] pub struct JweCompactS<T> { p: core::marker::PhantomData<T> }
+// ---- token sealing (compact_jwt / key objects): an abstraction of authenticated encryption. The compact string determines the
+// payload (per payload type) and the key it was sealed with; decryption succeeds only with that key. ASSUMED. ----
+#[derive(PartialEq, Eq)]
+pub struct KeyObject { pub id: u64 }
+pub struct Jwe { _p: u8 }
+pub struct JweBuilderS { _p: u8 }
+pub struct JweCompactS { _p: u8 }
 pub struct JweBuilder;
+pub struct JweCompact;
 pub struct JweSerdeError { pub o: u8 }
 pub struct JweCryptoError { pub o: u8 }
-impl<T> Jwe<T> { pub uninterp spec fn payload(&self) -> T; }
-impl<T> JweBuilderS<T> { pub uninterp spec fn payload(&self) -> T; #[verifier::external_body] pub fn build(self) -> (r: Jwe<T>) ensures r.payload() == self.payload() { unimplemented!() } }
-impl<T> JweCompactS<T> { pub uninterp spec fn payload(&self) -> T; #[verifier::external_body] pub fn to_string(&self) -> (r: String) ensures sealed_payload::<T>(r@) == Some(self.payload()) { unimplemented!() } }
 pub uninterp spec fn sealed_payload<T>(s: Seq<char>) -> Option<T>;
-impl JweBuilder { #[verifier::external_body] pub fn into_json<T>(t: &T) -> (r: Result<JweBuilderS<T>, JweSerdeError>) ensures r matches Ok(b) ==> b.payload() == *t { unimplemented!() } }
-impl KeyObject { #[verifier::external_body] pub fn jwe_a128gcm_encrypt<T>(&self, jwe: &Jwe<T>, ct: Duration) -> (r: Result<JweCompactS<T>, JweCryptoError>) ensures r matches Ok(c) ==> c.payload() == jwe.payload() { unimplemented!() } }
+pub uninterp spec fn sealed_key(s: Seq<char>) -> Option<u64>;
+pub uninterp spec fn was_sealed(s: Seq<char>) -> bool;                  // the string is a compact token this server produced (completeness of parsing / decryption is stated for those only)          // the key object (by id) or, with None, the server's consent key
+impl Jwe { pub uninterp spec fn payload<T>(&self) -> T;
+    #[verifier::external_body] pub fn from_json<U>(&self) -> (r: Result<U, JweSerdeError>) ensures r matches Ok(t) ==> (t == self.payload::<U>() && self.sealed_as::<U>()), (self.genuine() && self.sealed_as::<U>()) ==> r is Ok { unimplemented!() }
+    pub uninterp spec fn genuine(&self) -> bool; }
+impl JweBuilderS { pub uninterp spec fn payload<T>(&self) -> T;
+    #[verifier::external_body] pub fn build(self) -> (r: Jwe) ensures r.payload::<TokenExchangeCode>() == self.payload::<TokenExchangeCode>(), r.payload::<ConsentToken>() == self.payload::<ConsentToken>(), r.payload::<Oauth2TokenType>() == self.payload::<Oauth2TokenType>() { unimplemented!() } }
+impl JweCompactS { pub uninterp spec fn payload<T>(&self) -> T; pub uninterp spec fn key(&self) -> Option<u64>;
+    #[verifier::external_body] pub fn to_string(&self) -> (r: String)
+        ensures sealed_payload::<TokenExchangeCode>(r@) == Some(self.payload::<TokenExchangeCode>()), sealed_payload::<ConsentToken>(r@) == Some(self.payload::<ConsentToken>()),
+                sealed_payload::<Oauth2TokenType>(r@) == Some(self.payload::<Oauth2TokenType>()), sealed_key(r@) == self.key(), was_sealed(r@) { unimplemented!() }
+    pub uninterp spec fn genuine(&self) -> bool; }
+impl JweBuilder { #[verifier::external_body] pub fn into_json<T>(t: &T) -> (r: Result<JweBuilderS, JweSerdeError>) ensures r matches Ok(b) ==> b.payload::<T>() == *t { unimplemented!() } }
+impl JweCompact { // parsing the compact form: payload and key are whatever was sealed into that string
+    #[verifier::external_body] pub fn from_str(s: &str) -> (r: Result<JweCompactS, JweSerdeError>)
+        ensures r matches Ok(c) ==> (c.key() == sealed_key(s@)
+            && (sealed_payload::<TokenExchangeCode>(s@) matches Some(x) ==> c.payload::<TokenExchangeCode>() == x)
+            && (sealed_payload::<ConsentToken>(s@) matches Some(x) ==> c.payload::<ConsentToken>() == x)
+            && (sealed_payload::<Oauth2TokenType>(s@) matches Some(x) ==> c.payload::<Oauth2TokenType>() == x)),
+            // a string that was never sealed with a payload of that type does not decrypt to one (authenticity)
+            r matches Ok(c) ==> c.sealed_as::<TokenExchangeCode>() == (sealed_payload::<TokenExchangeCode>(s@) is Some),
+            r matches Ok(c) ==> c.sealed_as::<ConsentToken>() == (sealed_payload::<ConsentToken>(s@) is Some),
+            r matches Ok(c) ==> c.sealed_as::<Oauth2TokenType>() == (sealed_payload::<Oauth2TokenType>(s@) is Some),
+            was_sealed(s@) ==> (r matches Ok(c) && c.genuine()) { unimplemented!() } }
+impl JweCompactS { pub uninterp spec fn sealed_as<T>(&self) -> bool; }
+impl KeyObject {
+    #[verifier::external_body] pub fn jwe_a128gcm_encrypt(&self, jwe: &Jwe, ct: Duration) -> (r: Result<JweCompactS, JweCryptoError>)
+        ensures r matches Ok(c) ==> (c.key() == Some(self.id) && c.payload::<TokenExchangeCode>() == jwe.payload::<TokenExchangeCode>() && c.payload::<Oauth2TokenType>() == jwe.payload::<Oauth2TokenType>()) { unimplemented!() }
+    // decryption succeeds only for a token sealed with this very key object, and yields the sealed payload
+    #[verifier::external_body] pub fn jwe_decrypt(&self, c: &JweCompactS) -> (r: Result<Jwe, JweCryptoError>)
+        ensures r matches Ok(j) ==> (c.key() == Some(self.id)
+            && j.payload::<TokenExchangeCode>() == c.payload::<TokenExchangeCode>() && j.payload::<Oauth2TokenType>() == c.payload::<Oauth2TokenType>()
+            && j.sealed_as::<TokenExchangeCode>() == c.sealed_as::<TokenExchangeCode>() && j.sealed_as::<Oauth2TokenType>() == c.sealed_as::<Oauth2TokenType>()),
+            (c.genuine() && c.key() == Some(self.id)) ==> (r matches Ok(j) && j.genuine()) { unimplemented!() } }
+impl Jwe { pub uninterp spec fn sealed_as<T>(&self) -> bool; }
 pub struct JweA128GCMEncipher;
 pub struct JweA128KWEncipher { pub o: u8 }
-pub struct JweCompact;
-impl JweCompact { // parsing the compact form: the payload is whatever was sealed into that string (nothing if it was never sealed)
-    #[verifier::external_body] pub fn from_str(s: &str) -> (r: Result<JweCompactS<ConsentToken>, JweSerdeError>) ensures r matches Ok(c) ==> sealed_payload::<ConsentToken>(s@) == Some(c.payload()) { unimplemented!() } }
-impl Jwe<ConsentToken> { #[verifier::external_body] pub fn from_json(&self) -> (r: Result<ConsentToken, JweSerdeError>) ensures r matches Ok(t) ==> t == self.payload() { unimplemented!() } }
-impl JweA128KWEncipher { #[verifier::external_body] pub fn decipher(&self, c: &JweCompactS<ConsentToken>) -> (r: Result<Jwe<ConsentToken>, JweCryptoError>) ensures r matches Ok(j) ==> j.payload() == c.payload() { unimplemented!() } }
-impl JweA128KWEncipher { #[verifier::external_body] pub fn encipher<E>(&self, jwe: &Jwe<ConsentToken>) -> (r: Result<JweCompactS<ConsentToken>, JweCryptoError>) ensures r matches Ok(c) ==> c.payload() == jwe.payload() { unimplemented!() } }
+impl JweA128KWEncipher {
+    #[verifier::external_body] pub fn encipher<E>(&self, jwe: &Jwe) -> (r: Result<JweCompactS, JweCryptoError>) ensures r matches Ok(c) ==> (c.key() is None && c.payload::<ConsentToken>() == jwe.payload::<ConsentToken>()) { unimplemented!() }
+    #[verifier::external_body] pub fn decipher(&self, c: &JweCompactS) -> (r: Result<Jwe, JweCryptoError>) ensures r matches Ok(j) ==> (c.key() is None && j.payload::<ConsentToken>() == c.payload::<ConsentToken>() && j.sealed_as::<ConsentToken>() == c.sealed_as::<ConsentToken>()) { unimplemented!() } }
 // ---- real protocol types extracted from /repo ----
 //@extract ResponseType
 //@extract ResponseMode
@@ -145,6 +176,12 @@ impl JweA128KWEncipher { #[verifier::external_body] pub fn encipher<E>(&self, jw
 //@extract Oauth2RS
 //@extract TokenExchangeCode
 //@extract ConsentToken
+//@extract Oauth2TokenType
+//@extract OAuth2SessionContext
+//@extract AccessTokenType
+//@extract AccessTokenResponse
+//@extract PkceS256Secret
+pub struct IssuedTokenType { pub o: u8 }
 // ---- statement of C38 ----
 // "a PKCE S256 challenge is present whenever the client requires one": public clients always, basic clients when enabled
 pub open spec fn pkce_required(o: &Oauth2RS) -> bool { match o.type_ { OauthRSType::Basic { enable_pkce, .. } => enable_pkce, OauthRSType::Public { .. } => true } }
@@ -253,6 +290,93 @@ impl IdmServerProxyWriteTransaction {
     #[verifier::external_body] pub fn kvx_record_consent(&mut self, rs: Uuid, scopes: &BTreeSet<String>, account: Uuid) -> (r: Result<(), OperationError>)
         ensures final(self).oauth2rs == old(self).oauth2rs { unimplemented!() }
 //@extract check_oauth2_authorise_permit
+}
+// ---- C39: redeeming the code ----
+// `a.as_ref() == b.as_slice()` on byte strings: equality of the contents
+#[verifier::external_body] pub fn kvx_bytes_eq(a: &[u8], b: &[u8]) -> (r: bool) ensures r == (a@ == b@) { unimplemented!() }
+// statement of C39, code redemption: "only at the client it was issued for, before it expires, with the same redirect URI and, when a
+// PKCE challenge was recorded, with a verifier hashing to it"
+pub open spec fn exchange_ok(o: &Oauth2RS, code: Seq<char>, redirect: &Url, verifier: Option<&str>, ct: Duration, resp: &AccessTokenResponse) -> bool {
+    &&& sealed_key(code) == Some(o.key_object.v.id)
+    &&& sealed_payload::<TokenExchangeCode>(code) matches Some(x)
+        && x.expiry > ct.secs
+        && *redirect == x.redirect_uri
+        && (x.code_challenge matches Some(ch) ==> (verifier matches Some(v) && ch@ == sha256(v@)))
+        && (x.code_challenge is None ==> !pkce_required(o))
+        && response_scopes(resp) == x.scopes@ && response_account(resp) == x.account_uuid && response_client(resp) == o.uuid
+}
+// statement of C39, refresh: "a refresh never grants scopes beyond the original grant, reuse of an already-rotated refresh token revokes
+// the session, and tokens whose session or account has been revoked or has expired are rejected"
+pub open spec fn refresh_ok(this: &IdmServerProxyWriteTransaction, o: &Oauth2RS, tok: Seq<char>, ct: Duration, resp: &AccessTokenResponse) -> bool {
+    &&& sealed_key(tok) == Some(o.key_object.v.id)
+    &&& sealed_payload::<Oauth2TokenType>(tok) matches Some(Oauth2TokenType::Refresh { scopes, parent_session_id, session_id, exp, uuid, iat, nbf, nonce, auth_time })
+        && exp > ct.secs as i64
+        && (account_session_valid(this, uuid, session_id, parent_session_id, iat, ct) matches Some(e)
+            && (e.oauth2_sessions() matches Some(m) && m.contains_key(session_id) && iat >= m[session_id].issued_at.unix_ns / 1_000_000_000))
+        && response_scopes(resp).subset_of(scopes@) && response_account(resp) == uuid && response_client(resp) == o.uuid
+}
+pub open spec fn refresh_replayed(this: &IdmServerProxyWriteTransaction, o: &Oauth2RS, tok: Seq<char>, ct: Duration) -> Option<(Uuid, Uuid)> {
+    if was_sealed(tok) && !this.backend_failed() && sealed_key(tok) == Some(o.key_object.v.id) {
+        match sealed_payload::<Oauth2TokenType>(tok) {
+            Some(Oauth2TokenType::Refresh { scopes, parent_session_id, session_id, exp, uuid, iat, nbf, nonce, auth_time }) =>
+                if exp > ct.secs as i64 && (account_session_valid(this, uuid, session_id, parent_session_id, iat, ct) matches Some(e)
+                    && (e.oauth2_sessions() matches Some(m) && m.contains_key(session_id) && iat < m[session_id].issued_at.unix_ns / 1_000_000_000)) { Some((uuid, session_id)) } else { None },
+            _ => None,
+        }
+    } else { None }
+}
+// SHA-256 as an uninterpreted function; PkceS256Secret::to_challenge computes it over the verifier's bytes (sha2 crate: ASSUMED)
+pub uninterp spec fn sha256(bytes: Seq<char>) -> Seq<u8>;
+pub struct Sha256Output { pub b: Vec<u8> }
+impl Sha256Output { pub fn as_slice(&self) -> (r: &[u8]) ensures r@ == self.b@ { self.b.as_slice() } }
+impl vstd::std_specs::convert::FromSpecImpl<String> for PkceS256Secret {
+    open spec fn obeys_from_spec() -> bool { true }
+    open spec fn from_spec(v: String) -> PkceS256Secret { PkceS256Secret { secret: v } }
+}
+impl From<String> for PkceS256Secret {
+//@extract pkce_from
+}
+impl PkceS256Secret {
+    #[verifier::external_body] pub fn to_challenge(&self) -> (r: Sha256Output) ensures r.b@ == sha256(self.secret@) { unimplemented!() }
+//@extract pkce_verify
+}
+impl Uuid { #[verifier::external_body] pub fn new_v4() -> (r: Uuid) { unimplemented!() } }
+// what generate_access_token_response seals into the tokens it returns (its body — signing, session creation — is not covered here)
+pub uninterp spec fn response_scopes(r: &AccessTokenResponse) -> Set<String>;
+pub uninterp spec fn response_account(r: &AccessTokenResponse) -> Uuid;
+pub uninterp spec fn response_client(r: &AccessTokenResponse) -> Uuid;
+impl IdmServerProxyWriteTransaction {
+    #[verifier::external_body] pub fn generate_access_token_response(&mut self, o2rs: &Oauth2RS, ct: Duration, scopes: BTreeSet<String>, parent_session_id: Option<Uuid>, session_id: Uuid, session_ctx: OAuth2SessionContext) -> (r: Result<AccessTokenResponse, Oauth2Error>)
+        ensures r matches Ok(resp) ==> (response_scopes(&resp) == scopes@ && response_account(&resp) == session_ctx.account_uuid && response_client(&resp) == o2rs.uuid),
+                final(self).oauth2rs == old(self).oauth2rs { unimplemented!() }
+//@extract check_oauth2_token_exchange_authorization_code
+}
+// ---- C39: refresh ----
+pub enum Attribute { OAuth2Session, Other }
+pub struct Oauth2Session { pub issued_at: OffsetDateTime }
+impl OffsetDateTime { pub fn unix_timestamp(&self) -> (r: i64) ensures r as int == self.unix_ns / 1_000_000_000 no_unwind { proof { assume(false); } 0 } }
+#[verifier::external_body] pub struct KvxSessMap { _p: u8 }
+impl KvxSessMap { pub uninterp spec fn map(&self) -> Map<Uuid, Oauth2Session>;
+    #[verifier::external_body] pub fn get(&self, k: &Uuid) -> (r: Option<&Oauth2Session>) ensures (r is Some) == self.map().contains_key(*k), r is Some ==> *r->Some_0 == self.map()[*k] { unimplemented!() } }
+pub struct EntrySealedCommitted { _p: u8 }
+impl EntrySealedCommitted { pub uninterp spec fn oauth2_sessions(&self) -> Option<Map<Uuid, Oauth2Session>>;
+    #[verifier::external_body] pub fn get_ava_as_oauth2session_map(&self, a: Attribute) -> (r: Option<&KvxSessMap>)
+        ensures (r is Some) == (self.oauth2_sessions() is Some), r is Some ==> r->Some_0.map() == self.oauth2_sessions()->Some_0 { unimplemented!() } }
+// check_oauth2_account_uuid_valid (idm/server.rs): account and session still valid at ct — an uninterpreted predicate of the database
+// state here; the function itself is under contract in unit account_valid if present
+pub uninterp spec fn account_session_valid(this: &IdmServerProxyWriteTransaction, uuid: Uuid, session_id: Uuid, parent: Option<Uuid>, iat: i64, ct: Duration) -> Option<EntrySealedCommitted>;
+impl IdmServerProxyWriteTransaction {
+    pub uninterp spec fn revoked(&self) -> Set<(Uuid, Uuid)>;
+    pub uninterp spec fn backend_failed(&self) -> bool;            // the database lookup behind the validity check failed (an Err, not a verdict)      // (account, oauth2 session) pairs whose removal was issued in this transaction
+    #[verifier::external_body] pub fn check_oauth2_account_uuid_valid(&mut self, uuid: Uuid, session_id: Uuid, parent_session_id: Option<Uuid>, iat: i64, ct: Duration) -> (r: Result<Option<Arc<EntrySealedCommitted>>, OperationError>)
+        ensures final(self).oauth2rs == old(self).oauth2rs, final(self).revoked() == old(self).revoked(),
+            r matches Ok(Some(e)) ==> account_session_valid(old(self), uuid, session_id, parent_session_id, iat, ct) == Some(e.v),
+            r matches Ok(None) ==> account_session_valid(old(self), uuid, session_id, parent_session_id, iat, ct) is None,
+            r is Err ==> old(self).backend_failed() { unimplemented!() }
+    // R3: `internal_modify(uuid = account, Removed(oauth2_session, Refer(session)))` — the removal of that session is issued
+    #[verifier::external_body] pub fn kvx_revoke_oauth2_session(&mut self, uuid: Uuid, session_id: Uuid) -> (r: Result<(), OperationError>)
+        ensures final(self).oauth2rs == old(self).oauth2rs, r is Ok ==> final(self).revoked() == old(self).revoked().insert((uuid, session_id)) { unimplemented!() }
+//@extract check_oauth2_token_refresh
 }
 }
 fn main(){}
